@@ -3,5 +3,5 @@ from . import c02
 
 
 def check(ctx):
-    return c02.run_check(ctx, "C12", ["Oq3.Props.C12", "Oq3.Props.C12Sema", "Oq3.Props.C12NoSilent"], c02.C12_MARKS,
+    return c02.run_check(ctx, "C12", ["Oq3.Props.C12", "Oq3.Props.C12Sema", "Oq3.Props.C12NoSilent", "Oq3.Props.C12Escape"], c02.C12_MARKS,
                          "oracle on the real diagnostics: every lexical/syntactic range has start <= end <= len on character boundaries; a tree with an ERROR node or token has at least one diagnostic", "§7 C12")
